@@ -43,7 +43,11 @@ class Raw:
 
 
 ASCII_ALPHA = ["a", "b", "c", "A", "B", "z", "0", "1", " ", ",", "-", "x", "ab", "ba"]
-NONASCII_ALPHA = ["é", "ü", "ß", "€", "中", "\U0001F600", "ñ", "a", "b", " ", ","]
+NONASCII_ALPHA = ["é", "ü", "ß", "€", "中", "\U0001F600", "ñ", "a", "b", " ", ",",
+                  # characters whose code point ALIASES an ASCII character when truncated to 8 or 16 bits, next to
+                  # that ASCII character (round 4, seed C14-8: a per-heap cache of one-character strings keyed by
+                  # `c as u8`): U+0141/A, U+017A/z, U+672C/",", U+0432/2, U+0120/space, U+10041/A, U+0100/NUL
+                  "\u0141", "A", "\u017a", "z", "\u672c", "\u0432", "2", "\u0120", "\U00010041", "\u0100"]
 SMALL_NUMS = [0.0, 1.0, 2.0, 3.0, -1.0, -2.0, 5.0, 10.0, 7.0, 4.0]
 ODD_NUMS = [-0.0, 0.5, -0.5, 1.5, 2.5, -1.5, 1e30, -1e30, math.inf, -math.inf, math.nan, 2.0 ** 53, 2.0 ** 63,
             -2.0 ** 63, 2.0 ** 64, 1e19, -1e19, 4294967295.0, 4294967296.0, 0.9999999, -0.9999999, 1e-300, 39.0, 40.0,
